@@ -107,13 +107,19 @@ def hash_of(i: str) -> str:
     return hashlib.sha256(i.encode("utf-8")).hexdigest()
 
 
+DIRNAMES = ["store", "store", "line#3", "what?now", "sp ace", "100%done", "ünï", "a&b=c", "semi;colon", "file:localhost"]
+
+
 class World:
     """One directory, several LocalFileObjectStore instances, the objects the application holds."""
 
-    def __init__(self):
+    def __init__(self, tag: str = ""):
         _, lf = _sdk()
         self.lf = lf
-        self.dir = tempfile.mkdtemp(prefix="verif-c14-")
+        self.base = tempfile.mkdtemp(prefix="verif-c14-")
+        # the store directory is any directory name the file system allows (chosen by the history, so replays agree)
+        self.dir = os.path.join(self.base, DIRNAMES[int(hashlib.sha256(tag.encode()).hexdigest(), 16) % len(DIRNAMES)])
+        os.makedirs(self.dir)
         self.stores: List[Any] = []
         self.strong: List[Any] = []          # ref number -> object or None
         self.weak: List[Any] = []            # ref number -> weakref
@@ -123,7 +129,7 @@ class World:
     def close(self):
         self.strong = []
         self.stores = []
-        shutil.rmtree(self.dir, ignore_errors=True)
+        shutil.rmtree(self.base, ignore_errors=True)
 
     def store(self, k: int):
         while len(self.stores) <= k:
@@ -325,7 +331,7 @@ def correspond_seq(ctx: C.Ctx, cov: C.Coverage, lines, impl_out, index, cases):
         ninst = rng.choice([1, 2, 2, 2, 3])
         ids = rng.sample(IDS, rng.choice([1, 2, 3])) if rng.random() < 0.8 else rng.sample(IDS + MORE_IDS, 3)
         length = rng.randint(4, 30 if ctx.tier == "quick" else 60)
-        w = World()
+        w = World(f"seq{hi}")
         ops: List[List[Any]] = []
         try:
             lines.append(["reset"])
@@ -699,7 +705,7 @@ def check_sequence(ops: List[List[Any]]) -> Optional[C.Failing]:
     """The property over the implementation: a persistent map id -> version, plus identity of live replicas."""
     was = gc.isenabled()
     gc.disable()
-    w = World()
+    w = World(C.sha(ops))
     try:
         m: Dict[str, int] = {}                 # the persistent map
         local: Dict[int, int] = {}             # expected version held by each live object
